@@ -1371,7 +1371,8 @@ TIME_UNIT = ("traced events (call/line/return/exception, plus opcode in ~12% of 
              "are the only time there is")
 EVIDENCE_RULE = (
     "A case is one simulated run: a seeded plan of 1-4 caller threads x 1-5 ops (parse / "
-    "partial or full tokenize / AliasRewriter with caller instances / shorthand calls) "
+    "decoupled tokenize-then-parse / partial or full tokenize / AliasRewriter with caller "
+    "instances / shorthand calls; 22% of texts repeat or nearly repeat an earlier one) "
     "routed over a pool of 1-3 shared ODataLexer and 1-3 shared ODataParser instances, "
     "with planned pre-emptions and planned garbage-collector passes at numbered traced "
     "events, executed with the real library under the baton-passing scheduler. Every op "
